@@ -5,6 +5,7 @@ import (
 	"errors"
 	"fmt"
 	"io"
+	"pqsim/sched"
 	"sort"
 
 	"github.com/parquet-go/parquet-go"
@@ -42,6 +43,7 @@ type C14Scenario struct {
 	MaxCases   int        `json:"max_cases"` // 0 = enumerate every position
 	Only       *C14Case   `json:"only,omitempty"`
 	Failed     *C14Case   `json:"failed,omitempty"`
+	SchedSeed  uint64     `json:"sched_seed,omitempty"`
 }
 
 func (s *C14Scenario) Focus(v *core.Violation) {
@@ -93,9 +95,17 @@ func (C14) Gen(t *tape.Tape, tier string) any {
 	if t.Chance(1, 3) {
 		gen.GenBloom(t, gen.ShapeByName(sc.Plan.Shape), &sc.Plan.W)
 	}
-	// asynchronous read mode is exercised under the E3 scheduler only (real
-	// goroutine parallelism would make the faulted call index unrepeatable)
-	_ = t.Chance(1, 4)
+	// asynchronous read mode runs under the E3 scheduler (real goroutine
+	// parallelism would make the faulted call index unrepeatable): the page
+	// goroutines park at every ReadAt and a seeded scheduler picks who proceeds
+	if sc.Mode == "source" && t.Chance(1, 4) {
+		sc.F.Async = true
+		sc.F.Optimistic = false
+		sc.SchedSeed = t.Seed()
+		if sc.ReadPath == "pages" {
+			sc.ReadPath = "rowgroups"
+		}
+	}
 	if tier == "thorough" {
 		sc.MaxCases = 0
 		if t.Chance(1, 2) {
@@ -103,6 +113,17 @@ func (C14) Gen(t *tape.Tape, tier string) any {
 		}
 	} else {
 		sc.MaxCases = 48
+	}
+	if sc.F.Async {
+		// every execution is a scheduler run of hundreds of decisions: fewer fault positions, smaller files
+		sc.MaxCases = min(sc.MaxCases, 10)
+		if sc.MaxCases == 0 {
+			sc.MaxCases = 40
+		}
+		if sc.Plan.NRows > 80 {
+			sc.Plan.NRows = 80
+			sc.Plan.Ops = []WOp{{Op: "write", N: 50}, {Op: "write", N: 30}}
+		}
 	}
 	return sc
 }
@@ -250,6 +271,9 @@ func (r *c14run) sinkFaults(good []byte, bounds []int64) *core.Violation {
 	}
 	// the offered stream equals the file when nothing is re-sent
 	for _, pos := range samplePositions(int64(len(good)), bounds, sc.MaxCases, sc.SampleSeed) {
+		if r.c.Expired() {
+			break
+		}
 		for _, kind := range env.SinkKinds {
 			for _, sticky := range []bool{true, false} {
 				if kind == env.SinkShortNoErr && sticky {
@@ -318,7 +342,7 @@ func (r *c14run) sourceFaults(good []byte) *core.Violation {
 	sf.EOFAtEnd = sc.F.EOFAtEnd
 	sf.Log = true
 	r.evals++
-	ref := drive(r.c, "C14", sf, sc.F, sc.ReadPath, r.sh, r.data, &batches{sizes: sc.Batches})
+	ref := r.driveSrc(sf)
 	if ref.Wrong != nil || ref.Err != nil || !ref.Complete {
 		if ref.Wrong != nil {
 			return ref.Wrong
@@ -332,7 +356,7 @@ func (r *c14run) sourceFaults(good []byte) *core.Violation {
 			f := env.NewFile(r.c, good)
 			f.EOFAtEnd = sc.F.EOFAtEnd
 			f.Arm(&env.SrcFault{Kind: k.Kind, Call: k.Call, Cut: k.Cut, CutAbs: k.CutAbs, Sticky: k.Sticky})
-			res := drive(r.c, "C14", f, sc.F, sc.ReadPath, r.sh, r.data, &batches{sizes: sc.Batches})
+			res := r.driveSrc(f)
 			if f.Fired == 0 {
 				return nil
 			}
@@ -350,6 +374,9 @@ func (r *c14run) sourceFaults(good []byte) *core.Violation {
 	}
 	maxCalls := sc.MaxCases
 	for _, ci := range samplePositions(int64(len(calls)), idx, maxCalls, sc.SampleSeed) {
+		if r.c.Expired() {
+			break
+		}
 		call := calls[ci]
 		for _, kind := range env.SrcKinds {
 			cuts := []C14Case{{Kind: kind, Call: int(ci), Cut: 0, CutAbs: -1}}
@@ -372,6 +399,37 @@ func (r *c14run) sourceFaults(good []byte) *core.Violation {
 		}
 	}
 	return nil
+}
+
+// driveSrc reads the file through the scenario's path; in asynchronous read
+// mode the whole read runs as one task under the scheduler, the library's page
+// goroutines parking at every ReadAt.
+func (r *c14run) driveSrc(f *env.SimFile) driveResult {
+	sc := r.sc
+	if !sc.F.Async {
+		return drive(r.c, "C14", f, sc.F, sc.ReadPath, r.sh, r.data, &batches{sizes: sc.Batches})
+	}
+	var S *sched.S
+	f.Gate = func(off int64, n int) {
+		if S != nil && !inSyncOnce() {
+			S.Yield("readat", fmt.Sprintf("%d+%d", off, n))
+		}
+	}
+	var res driveResult
+	dec := sched.NewDecisions(sc.SchedSeed, nil)
+	sres := sched.Run(core.T, dec, 60000, nil, func(s *sched.S) { S = s }, []func(*sched.S){func(*sched.S) {
+		res = drive(r.c, "C14", f, sc.F, sc.ReadPath, r.sh, r.data, &batches{sizes: sc.Batches})
+	}}, nil)
+	f.Gate = nil
+	r.c.ProbeN("sched-decisions", sres.Steps)
+	r.c.Probe("async-executions")
+	if sres.Panic != nil {
+		panic(fmt.Sprintf("%v (in the reading task under the scheduler)", sres.Panic))
+	}
+	if sres.Deadlock != "" && res.Err == nil && res.Wrong == nil {
+		res.Wrong = core.Violate("C14/source/deadlock/async", "%s after %d decisions", sres.Deadlock, sres.Steps)
+	}
+	return res
 }
 
 // pageBoundaries lists the file offsets at which pages start or chunks end,
@@ -488,6 +546,9 @@ func (r *c14run) copyFaults(good []byte) *core.Violation {
 		idx[i] = int64(i)
 	}
 	for _, ci := range samplePositions(int64(len(calls)), idx, sc.MaxCases, sc.SampleSeed) {
+		if r.c.Expired() {
+			break
+		}
 		call := calls[ci]
 		for _, kind := range env.SrcKinds {
 			cuts := []int{0}
